@@ -81,6 +81,16 @@ def exec (a : List String) : String :=
       let acc := accepted s || (match s with | '+' :: t => accepted t | _ => false)
       let g := if acc then (if isJsonNumber out then "G-OK" else "G-FAIL") else "G-NA"
       s!"{str out} {c.name} {rtOf c} {g}"
+  | ["prev", h] =>
+    -- stream_owned_value_json_jq (error-message preview) on from_number_bytes(h)
+    match textOfHex h with
+    | none => "NON-UTF8"
+    | some s =>
+      match fromNumberBytes s with
+      | .literal (.float .nan) _ => "null"
+      | .literal (.float .inf) t => str (formatNumberJqCompat CAP t)
+      | .literal _ t => str (formatNumberJqCompatPreview CAP t)
+      | _ => "-"
   | ["fnb", h, disp] =>
     match textOfHex h with
     | none => "NON-UTF8"
